@@ -806,6 +806,8 @@ func (env *SpecEnv) callExpr(n *ast.CallExpr) Val {
 	case "itoa":
 		t := env.evalTerm(arg(0))
 		return Ite(Ge(t, Int(0)), StrFromInt(t), Concat(Str("-"), StrFromInt(Sub(Int(0), t))))
+	case "toInt":
+		return app("str.to_int", SInt, env.evalTerm(arg(0)))
 	case "replaceAll":
 		return StrReplaceAll(env.evalTerm(arg(0)), env.evalTerm(arg(1)), env.evalTerm(arg(2)))
 	case "str", "string", "content":
